@@ -431,4 +431,433 @@ theorem doyOf_exact (n j : Int) (g : Rat) (hj1 : 1 ≤ j) (hj2 : j ≤ 201) (hn1
       exact_mod_cast (by omega : n - (365 * j + (j - 1) / 4) ≤ (80000 : Int))
     exact abs_lt_of_bounds (lo := -80000) (hi := 80001) (by linarith) (by linarith) (by norm_num) (by norm_num)
 
+
+theorem pow2_ge_of (e : Int) (he : -40 ≤ e) : (8192 : Rat) ≤ pow2 (e + 53) := by
+  have : pow2 13 ≤ pow2 (e + 53) := pow2_mono (by omega)
+  have p13 : pow2 13 = 8192 := by
+    have := pow2_nat 13; simp only [Nat.cast_ofNat] at this; rw [this]; norm_num
+  rw [p13] at this; exact this
+
+theorem rn_grid_small (x : Rat) (e : Int) (hx : onGrid e x) (he : -40 ≤ e) (hb : |x| < 8192) : rn x = x :=
+  rn_grid x e hx (lt_of_lt_of_le hb (pow2_ge_of e he))
+
+theorem onGrid_mul4 (e : Int) (x : Rat) (hx : onGrid e x) : onGrid (e + 2) (x * 4) := by
+  obtain ⟨m, rfl⟩ := hx
+  refine ⟨m, ?_⟩
+  rw [pow2_add]
+  have : pow2 2 = 4 := by have := pow2_nat 2; simp only [Nat.cast_ofNat] at this; rw [this]; norm_num
+  rw [this]; ring
+
+theorem onGrid_mul8 (e : Int) (x : Rat) (hx : onGrid e x) : onGrid (e + 3) (x * 8) := by
+  obtain ⟨m, rfl⟩ := hx
+  refine ⟨m, ?_⟩
+  rw [pow2_add]
+  have : pow2 3 = 8 := by have := pow2_nat 3; simp only [Nat.cast_ofNat] at this; rw [this]; norm_num
+  rw [this]; ring
+
+theorem floor_facts (x : Rat) : ((x.floor : Int) : Rat) ≤ x ∧ x < ((x.floor : Int) : Rat) + 1 := by
+  have : x.floor = ⌊x⌋ := rfl
+  rw [this]
+  exact ⟨Int.floor_le x, Int.lt_floor_add_one x⟩
+
+/-- `(x - floor x) * 60` in floats is exact for a value on a fine grid -/
+theorem frac_mul60 (e : Int) (he : -40 ≤ e) (x : Rat) (hx : onGrid e x) (he0 : e ≤ 0) (x0 : 0 ≤ x) (x1 : x < 100) :
+    fmul (fsub x (ffloor x)) 60 = (x - ((x.floor : Int) : Rat)) * 60 ∧ onGrid (e + 2) ((x - ((x.floor : Int) : Rat)) * 60) := by
+  obtain ⟨f0, f1⟩ := floor_facts x
+  have gsub : onGrid e (x - ((x.floor : Int) : Rat)) := onGrid_sub hx (onGrid_intCast _ e he0)
+  have hsub : fsub x (ffloor x) = x - ((x.floor : Int) : Rat) := by
+    simp only [fsub, ffloor]
+    exact rn_grid_small _ e gsub he (abs_lt_of_bounds (lo := 0) (hi := 1) (by linarith) (by linarith) (by norm_num) (by norm_num))
+  have g60 : onGrid (e + 2) ((x - ((x.floor : Int) : Rat)) * 60) := by
+    have := onGrid_mul_int (onGrid_mul4 e _ gsub) 15
+    have e' : (x - ((x.floor : Int) : Rat)) * 60 = (x - ((x.floor : Int) : Rat)) * 4 * ((15 : Int) : Rat) := by push_cast; ring
+    rw [e']; exact this
+  refine ⟨?_, g60⟩
+  rw [hsub]; simp only [fmul]
+  exact rn_grid_small _ (e + 2) g60 (by omega) (abs_lt_of_bounds (lo := 0) (hi := 60) (by nlinarith) (by nlinarith) (by norm_num) (by norm_num))
+
+/-- `(x - floor x) * 24` likewise -/
+theorem frac_mul24 (e : Int) (he : -40 ≤ e) (x : Rat) (hx : onGrid e x) (he0 : e ≤ 0) (x0 : 0 ≤ x) (x1 : x < 400) :
+    fmul (fsub x (ffloor x)) 24 = (x - ((x.floor : Int) : Rat)) * 24 ∧ onGrid (e + 3) ((x - ((x.floor : Int) : Rat)) * 24) := by
+  obtain ⟨f0, f1⟩ := floor_facts x
+  have gsub : onGrid e (x - ((x.floor : Int) : Rat)) := onGrid_sub hx (onGrid_intCast _ e he0)
+  have hsub : fsub x (ffloor x) = x - ((x.floor : Int) : Rat) := by
+    simp only [fsub, ffloor]
+    exact rn_grid_small _ e gsub he (abs_lt_of_bounds (lo := 0) (hi := 1) (by linarith) (by linarith) (by norm_num) (by norm_num))
+  have g24 : onGrid (e + 3) ((x - ((x.floor : Int) : Rat)) * 24) := by
+    have := onGrid_mul_int (onGrid_mul8 e _ gsub) 3
+    have e' : (x - ((x.floor : Int) : Rat)) * 24 = (x - ((x.floor : Int) : Rat)) * 8 * ((3 : Int) : Rat) := by push_cast; ring
+    rw [e']; exact this
+  refine ⟨?_, g24⟩
+  rw [hsub]; simp only [fmul]
+  exact rn_grid_small _ (e + 3) g24 (by omega) (abs_lt_of_bounds (lo := 0) (hi := 24) (by nlinarith) (by nlinarith) (by norm_num) (by norm_num))
+
+
+/-! ### `getCalendarDate` in pieces -/
+
+def doyOfY (tempVal : Rat) (year : Int) : Rat :=
+  fsub tempVal ((((year - 1900) * 365 : Int) : Rat) + ffloor (fmul ((year : Rat) - 1901) (1 / 4)))
+
+def yearOf (tempVal : Rat) : Int :=
+  let year0 : Int := 1900 + (fdiv tempVal (36525 / 100)).floor
+  if doyOfY tempVal year0 < 1 then year0 - 1 else year0
+
+theorem getCalendarDate_eq (jd : Rat) :
+    getCalendarDate jd =
+      (let tv := fsub jd (24150195 / 10)
+       let r := days2mdh (yearOf tv) (doyOfY tv (yearOf tv))
+       ⟨yearOf tv, r.1, r.2.1, r.2.2.1, r.2.2.2.1, r.2.2.2.2⟩) := rfl
+
+theorem doyOfY_exact (n j year : Int) (g : Rat) (hy : year = 1900 + j) (hj1 : 1 ≤ j) (hj2 : j ≤ 201) (hn1 : 0 ≤ n) (hn2 : n ≤ 80000)
+    (g0 : 0 ≤ g) (g1 : g < 1) (gg : onGrid (-31) g) :
+    doyOfY ((n : Rat) + g) year = ((n - (365 * j + (j - 1) / 4) : Int) : Rat) + g := by
+  subst hy
+  exact doyOf_exact n j g hj1 hj2 hn1 hn2 g0 g1 gg
+
+/-- the year is recovered, and with it the day of year -/
+theorem year_select (n k doyI : Int) (g : Rat) (hk1 : 1 ≤ k) (hk2 : k ≤ 199) (g0 : 0 ≤ g) (g1 : g < 1) (gg : onGrid (-31) g)
+    (hn : n = doyI + 365 * k + (k - 1) / 4) (hd1 : 1 ≤ doyI) (hd2 : doyI ≤ 365 + (if k % 4 = 0 then 1 else 0)) :
+    yearOf ((n : Rat) + g) = 1900 + k ∧ doyOfY ((n : Rat) + g) (1900 + k) = (doyI : Rat) + g := by
+  have hlo : 365 * k + (k - 1) / 4 + 1 ≤ n := by omega
+  have hhi : n ≤ 365 * k + (k - 1) / 4 + 366 := by split_ifs at hd2 <;> omega
+  have hn1 : 0 ≤ n := by omega
+  have hn2 : n ≤ 80000 := by omega
+  have ek := doyOfY_exact n k (1900 + k) g rfl hk1 (by omega) hn1 hn2 g0 g1 gg
+  have ek' : doyOfY ((n : Rat) + g) (1900 + k) = (doyI : Rat) + g := by
+    rw [ek]
+    have : n - (365 * k + (k - 1) / 4) = doyI := by omega
+    rw [this]
+  refine ⟨?_, ek'⟩
+  unfold yearOf
+  simp only
+  rcases year_guess n k g hk1 hk2 g0 g1 hlo hhi with hj | hj
+  · rw [hj, ek']
+    have : ¬ ((doyI : Rat) + g < 1) := by
+      have : (1 : Rat) ≤ doyI := by exact_mod_cast hd1
+      linarith
+    simp only [this, if_false]
+  · rw [hj]
+    have e1 := doyOfY_exact n (k + 1) (1900 + (k + 1)) g rfl (by omega) (by omega) hn1 hn2 g0 g1 gg
+    rw [e1]
+    have hle : n - (365 * (k + 1) + (k + 1 - 1) / 4) ≤ 0 := by split_ifs at hd2 <;> omega
+    have : ((n - (365 * (k + 1) + (k + 1 - 1) / 4) : Int) : Rat) + g < 1 := by
+      have : ((n - (365 * (k + 1) + (k + 1 - 1) / 4) : Int) : Rat) ≤ 0 := by exact_mod_cast hle
+      linarith
+    simp only [this, if_true]
+    ring
+
+/-- hour, minute and second as `days2mdh` computes them -/
+def hhOf (g : Rat) : Int := (g * 24).floor
+def mmOf (g : Rat) : Int := ((g * 24 - (hhOf g : Rat)) * 60).floor
+def secOf (g : Rat) : Rat := ((g * 24 - (hhOf g : Rat)) * 60 - (mmOf g : Rat)) * 60
+
+theorem days2mdh_exact (year : Int) (mo : Nat) (d : Int) (g : Rat) (h1 : 1 ≤ mo) (h2 : mo ≤ 12) (hd1 : 1 ≤ d)
+    (hd2 : d ≤ monthLenT ((year - 1900) % 4 == 0) mo) (g0 : 0 ≤ g) (g1 : g < 1) (gg : onGrid (-31) g) :
+    days2mdh year ((cum ((year - 1900) % 4 == 0) mo + d : Int) + g)
+      = ((mo : Int), d, ((hhOf g : Int) : Rat), ((mmOf g : Int) : Rat), secOf g) := by
+  set leap := ((year - 1900) % 4 == 0) with hleap
+  have hb := cum_bounds leap mo d h1 h2 hd1 hd2
+  have hd31 : d ≤ 31 := by
+    have : monthLenT leap mo ≤ 31 := by unfold monthLenT; split_ifs <;> omega
+    omega
+  have hfloor : (((cum leap mo + d : Int) : Rat) + g).floor = cum leap mo + d := floor_int_add _ g g0 g1
+  -- the month loop, from the table
+  have hloop : monthLoop leap (cum leap mo + d) 12 1 0 = ((mo : Int), cum leap mo) := by
+    have := monthLoop_table leap ⟨mo, by omega⟩ ⟨d.toNat, by omega⟩ (by simpa using h1) (by simp; omega) (by simp; omega)
+    simp only at this
+    have hdn : ((d.toNat : Nat) : Int) = d := by omega
+    rw [hdn] at this
+    exact this
+  -- hours, minutes, seconds
+  have gx : onGrid (-31) (((cum leap mo + d : Int) : Rat) + g) := onGrid_add (onGrid_intCast _ _ (by norm_num)) gg
+  have xb0 : (0 : Rat) ≤ ((cum leap mo + d : Int) : Rat) + g := by
+    have : (1 : Rat) ≤ ((cum leap mo + d : Int) : Rat) := by exact_mod_cast hb.1
+    linarith
+  have xb1 : ((cum leap mo + d : Int) : Rat) + g < 400 := by
+    have : ((cum leap mo + d : Int) : Rat) ≤ 366 := by
+      have : cum leap mo + d ≤ 366 := by have := hb.2; split_ifs at this <;> omega
+      exact_mod_cast this
+    linarith
+  obtain ⟨e24, g24⟩ := frac_mul24 (-31) (by norm_num) _ gx (by norm_num) xb0 xb1
+  rw [hfloor] at e24 g24
+  have eg : ((cum leap mo + d : Int) : Rat) + g - ((cum leap mo + d : Int) : Rat) = g := by ring
+  rw [eg] at e24 g24
+  have g24' : onGrid (-28) (g * 24) := by simpa using g24
+  have hr0 : 0 ≤ g * 24 := by positivity
+  have hr1 : g * 24 < 100 := by linarith
+  obtain ⟨e60, g60⟩ := frac_mul60 (-28) (by norm_num) _ g24' (by norm_num) hr0 hr1
+  have g60' : onGrid (-26) ((g * 24 - ((g * 24).floor : Int)) * 60) := by simpa using g60
+  obtain ⟨ff0, ff1⟩ := floor_facts (g * 24)
+  have hm0 : 0 ≤ (g * 24 - ((g * 24).floor : Int)) * 60 := by nlinarith
+  have hm1 : (g * 24 - ((g * 24).floor : Int)) * 60 < 100 := by nlinarith
+  obtain ⟨e60b, _⟩ := frac_mul60 (-26) (by norm_num) _ g60' (by norm_num) hm0 hm1
+  unfold days2mdh
+  simp only [← hleap, hfloor, hloop]
+  have e24' : fmul (fsub (((cum leap mo + d : Int) : Rat) + g) ((cum leap mo + d : Int) : Rat)) 24 = g * 24 := by
+    have hfl : ffloor (((cum leap mo + d : Int) : Rat) + g) = ((cum leap mo + d : Int) : Rat) := by simp only [ffloor, hfloor]
+    rw [hfl] at e24; exact e24
+  rw [e24', e60, e60b]
+  simp only [ffloor, hhOf, mmOf, secOf, add_sub_cancel_left]
+
+
+/-! ### the round trip -/
+
+theorem dayCount_bounds (c : Civil) (hv : ValidCivil c) : 690000 ≤ dayCount c ∧ dayCount c ≤ 770000 := by
+  obtain ⟨y1, y2, mo1, mo2, d1, d2, _, _, _, _, _, _, _⟩ := hv
+  unfold dayCount
+  constructor <;> omega
+
+theorem secOfDay_bounds (c : Civil) (hv : ValidCivil c) : 0 ≤ secOfDay c ∧ secOfDay c ≤ 86399 := by
+  obtain ⟨_, _, _, _, _, _, h1, h2, mi1, mi2, s1, s2, _⟩ := hv
+  unfold secOfDay
+  constructor <;> omega
+
+/-- **the calendar that comes back is the calendar that went in**, with the time of day carried by a day fraction
+`g` within `2^-32 + 2^-54` of `S/86400` -/
+theorem calendar_recovered (c : Civil) (hv : ValidCivil c) (hd : c.d ≤ monthLenT ((c.y - 1900) % 4 == 0) c.mo) :
+    ∃ g : Rat, 0 ≤ g ∧ g < 1 ∧ |g - (secOfDay c : Rat) / 86400| ≤ pow2 (-32) + pow2 (-54) ∧
+      jdOf c = (dayCount c : Rat) + 17210135 / 10 + g ∧
+      getCalendarDate (jdOf c) = ⟨c.y, c.mo, c.d, ((hhOf g : Int) : Rat), ((mmOf g : Int) : Rat), secOf g⟩ := by
+  obtain ⟨N1, N2⟩ := dayCount_bounds c hv
+  obtain ⟨S0, S1⟩ := secOfDay_bounds c hv
+  have hs := jd_structure c hv
+  obtain ⟨g0, g1, gg, _, hdiff⟩ := jd_facts (dayCount c) (secOfDay c) N1 N2 S0 S1
+  rw [← hs] at g0 g1 gg hdiff
+  refine ⟨jdOf c - ((dayCount c : Rat) + 17210135 / 10), g0, g1, hdiff, by ring, ?_⟩
+  set g := jdOf c - ((dayCount c : Rat) + 17210135 / 10) with hg
+  have hjd : jdOf c = (dayCount c : Rat) + 17210135 / 10 + g := by rw [hg]; ring
+  obtain ⟨y1, y2, mo1, mo2, d1, d2, _, _, _, _, _, _, _⟩ := hv
+  -- month as a natural number
+  obtain ⟨m, hm⟩ : ∃ m : Nat, c.mo = (m : Int) := ⟨c.mo.toNat, by omega⟩
+  have hm1 : 1 ≤ m := by omega
+  have hm2 : m ≤ 12 := by omega
+  have hleap : ((c.y - 1900) % 4 == 0) = true ↔ (c.y - 1900) % 4 = 0 := by simp
+  have hcount := dayCount_doy c.y m c.d ((c.y - 1900) % 4 == 0) y1 y2 hm1 hm2 hleap
+  have hd' : c.d ≤ monthLenT ((c.y - 1900) % 4 == 0) m := by rw [← hm]; exact hd
+  have hcb := cum_bounds ((c.y - 1900) % 4 == 0) m c.d hm1 hm2 d1 hd'
+  have hn : dayCount c - 694006 = (cum ((c.y - 1900) % 4 == 0) m + c.d) + 365 * (c.y - 1900) + (c.y - 1900 - 1) / 4 := by
+    unfold dayCount; rw [hm]
+    have : c.y - 1900 - 1 = c.y - 1901 := by ring
+    rw [this]; exact hcount
+  have hcb2 : cum ((c.y - 1900) % 4 == 0) m + c.d ≤ 365 + (if (c.y - 1900) % 4 = 0 then 1 else 0) := by
+    have := hcb.2
+    by_cases h4 : (c.y - 1900) % 4 = 0
+    · simp only [h4, if_true]; simpa [hleap.mpr h4] using this
+    · have hf : ((c.y - 1900) % 4 == 0) = false := by simpa using h4
+      simp only [h4, if_false]; simpa [hf] using this
+  obtain ⟨hyr, hdoy⟩ := year_select (dayCount c - 694006) (c.y - 1900) (cum ((c.y - 1900) % 4 == 0) m + c.d) g
+    (by omega) (by omega) g0 g1 gg hn hcb.1 hcb2
+  have hyr' : yearOf (((dayCount c - 694006 : Int) : Rat) + g) = c.y := by rw [hyr]; ring
+  have hdoy' : doyOfY (((dayCount c - 694006 : Int) : Rat) + g) c.y = ((cum ((c.y - 1900) % 4 == 0) m + c.d : Int) : Rat) + g := by
+    have : (1900 + (c.y - 1900) : Int) = c.y := by ring
+    rw [this] at hdoy; exact hdoy
+  rw [getCalendarDate_eq]
+  simp only
+  rw [hjd, tempVal_exact (dayCount c) g N1 N2 g0 g1 gg, hyr', hdoy',
+    days2mdh_exact c.y m c.d g hm1 hm2 d1 hd' g0 g1 gg, hm]
+
+theorem pow2_err_small : (86400 : Rat) * (pow2 (-32) + pow2 (-54)) < 1 / 2 := by
+  obtain ⟨q32, q54, _⟩ := pow2_small
+  rw [q32, q54]; norm_num
+
+/-- **calendar → Julian date → calendar is the identity** on whole seconds, 1901-2099 (the repaired rule) -/
+theorem civil_roundtrip (c : Civil) (hv : ValidCivil c) (hd : c.d ≤ monthLenT ((c.y - 1900) % 4 == 0) c.mo) :
+    j2dSeconds .nearest (jdOf c) = civilToSeconds c := by
+  obtain ⟨g, g0, g1, hdiff, _, hcal⟩ := calendar_recovered c hv hd
+  unfold j2dSeconds j2dParts
+  simp only [hcal, civilToSeconds, floor_intCast]
+  -- the second: 86400 g = S + ε with |ε| < 1/2
+  have hε : |(86400 : Rat) * g - (secOfDay c : Rat)| < 1 / 2 := by
+    have : (86400 : Rat) * g - (secOfDay c : Rat) = 86400 * (g - (secOfDay c : Rat) / 86400) := by ring
+    rw [this, abs_mul, abs_of_pos (by norm_num : (0 : Rat) < 86400)]
+    exact lt_of_le_of_lt (mul_le_mul_of_nonneg_left hdiff (by norm_num)) pow2_err_small
+  have hsec : secOf g = ((secOfDay c - 3600 * hhOf g - 60 * mmOf g : Int) : Rat) + ((86400 : Rat) * g - (secOfDay c : Rat)) := by
+    unfold secOf; push_cast; ring
+  have hr : fround (secOf g) = secOfDay c - 3600 * hhOf g - 60 * mmOf g := by
+    unfold fround; rw [hsec]; exact rheQ_int_add _ _ hε
+  rw [hr]
+  unfold secOfDay
+  ring
+
+
+/-! ### strict monotonicity -/
+
+theorem jd_decomp (c : Civil) (hv : ValidCivil c) :
+    ∃ g : Rat, 0 ≤ g ∧ g < 1 ∧ |g - (secOfDay c : Rat) / 86400| ≤ pow2 (-32) + pow2 (-54) ∧
+      jdOf c = (dayCount c : Rat) + 17210135 / 10 + g := by
+  obtain ⟨N1, N2⟩ := dayCount_bounds c hv
+  obtain ⟨S0, S1⟩ := secOfDay_bounds c hv
+  have hs := jd_structure c hv
+  obtain ⟨g0, g1, _, _, hdiff⟩ := jd_facts (dayCount c) (secOfDay c) N1 N2 S0 S1
+  rw [← hs] at g0 g1 hdiff
+  exact ⟨jdOf c - ((dayCount c : Rat) + 17210135 / 10), g0, g1, hdiff, by ring⟩
+
+theorem civilToSeconds_eq (c : Civil) (hv : ValidCivil c) :
+    civilToSeconds c = (dayCount c + 1721013 - 2440587) * 86400 + secOfDay c := by
+  obtain ⟨y1, y2, mo1, mo2, d1, d2, _, _, _, _, _, _, _⟩ := hv
+  have h := vallado_dayNumber c.y c.mo.toNat c.d.toNat y1 y2 (by omega) (by omega)
+  have hm : ((c.mo.toNat : Nat) : Int) = c.mo := by omega
+  have hd : ((c.d.toNat : Nat) : Int) = c.d := by omega
+  rw [hm, hd] at h
+  unfold civilToSeconds dayCount secOfDay
+  omega
+
+/-- **Julian dates are strictly increasing in civil time** (whole seconds, 1901-2099): two different instants never
+share a Julian date and their order is preserved -/
+theorem jd_strict_mono (c1 c2 : Civil) (h1 : ValidCivil c1) (h2 : ValidCivil c2)
+    (hlt : civilToSeconds c1 < civilToSeconds c2) : jdOf c1 < jdOf c2 := by
+  obtain ⟨g1, _, _, e1, j1⟩ := jd_decomp c1 h1
+  obtain ⟨g2, _, _, e2, j2⟩ := jd_decomp c2 h2
+  rw [civilToSeconds_eq c1 h1, civilToSeconds_eq c2 h2] at hlt
+  have hi : (dayCount c2 - dayCount c1) * 86400 + (secOfDay c2 - secOfDay c1) ≥ 1 := by omega
+  have hr : ((dayCount c2 : Rat) - dayCount c1) * 86400 + ((secOfDay c2 : Rat) - secOfDay c1) ≥ 1 := by exact_mod_cast hi
+  obtain ⟨q32, q54, _⟩ := pow2_small
+  rw [q32, q54] at e1 e2
+  have a1 := (abs_le.mp e1).2
+  have a2 := (abs_le.mp e2).1
+  rw [j1, j2]
+  have : ((dayCount c2 : Rat) - dayCount c1) + ((secOfDay c2 : Rat) - secOfDay c1) / 86400 ≥ 1 / 86400 := by
+    have : ((dayCount c2 : Rat) - dayCount c1) + ((secOfDay c2 : Rat) - secOfDay c1) / 86400
+        = (((dayCount c2 : Rat) - dayCount c1) * 86400 + ((secOfDay c2 : Rat) - secOfDay c1)) / 86400 := by ring
+    rw [this]
+    exact div_le_div_of_nonneg_right hr (by norm_num)
+  linarith
+
+/-- the residual of a Julian date against the exact value is below 21 microseconds -/
+theorem jd_error (c : Civil) (hv : ValidCivil c) :
+    |jdOf c - ((dayCount c : Rat) + 17210135 / 10 + (secOfDay c : Rat) / 86400)| * 86400 < 21 / 1000000 := by
+  obtain ⟨g, _, _, e, j⟩ := jd_decomp c hv
+  obtain ⟨q32, q54, _⟩ := pow2_small
+  rw [q32, q54] at e
+  rw [j]
+  have : (dayCount c : Rat) + 17210135 / 10 + g - ((dayCount c : Rat) + 17210135 / 10 + (secOfDay c : Rat) / 86400)
+      = g - (secOfDay c : Rat) / 86400 := by ring
+  rw [this]
+  have : |g - (secOfDay c : Rat) / 86400| * 86400 ≤ (1 / 4294967296 + 1 / 18014398509481984) * 86400 :=
+    mul_le_mul_of_nonneg_right e (by norm_num)
+  have h2 : ((1 : Rat) / 4294967296 + 1 / 18014398509481984) * 86400 < 21 / 1000000 := by norm_num
+  linarith
+
+
+/-! ### requested durations -/
+
+theorem jd_decomp_grid (c : Civil) (hv : ValidCivil c) :
+    ∃ g : Rat, 0 ≤ g ∧ g < 1 ∧ onGrid (-31) g ∧ |g - (secOfDay c : Rat) / 86400| ≤ pow2 (-32) + pow2 (-54) ∧
+      jdOf c = (dayCount c : Rat) + 17210135 / 10 + g := by
+  obtain ⟨N1, N2⟩ := dayCount_bounds c hv
+  obtain ⟨S0, S1⟩ := secOfDay_bounds c hv
+  have hs := jd_structure c hv
+  obtain ⟨g0, g1, gg, _, hdiff⟩ := jd_facts (dayCount c) (secOfDay c) N1 N2 S0 S1
+  rw [← hs] at g0 g1 gg hdiff
+  exact ⟨jdOf c - ((dayCount c : Rat) + 17210135 / 10), g0, g1, gg, hdiff, by ring⟩
+
+theorem onGrid_mul16 (e : Int) (x : Rat) (hx : onGrid e x) : onGrid (e + 4) (x * 16) := by
+  obtain ⟨m, rfl⟩ := hx
+  refine ⟨m, ?_⟩
+  rw [pow2_add]
+  have : pow2 4 = 16 := by have := pow2_nat 4; simp only [Nat.cast_ofNat] at this; rw [this]; norm_num
+  rw [this]; ring
+
+/-- **scenario time between two instants is exact to 41 microseconds**: `convertToScenarioTime` of the Julian dates of two
+whole-second instants at most 10⁸ s apart is their civil distance plus an error below half a second (in fact 4.1e-5 s),
+with no further rounding in the subtraction and the two multiplications -/
+theorem scenario_time_exact (c0 c1 : Civil) (h0 : ValidCivil c0) (h1 : ValidCivil c1)
+    (hD0 : 0 ≤ civilToSeconds c1 - civilToSeconds c0) (hD1 : civilToSeconds c1 - civilToSeconds c0 ≤ 100000000) :
+    ∃ η : Rat, |η| < 1 / 2 ∧ toScenario (jdOf c1) (jdOf c0) = ((civilToSeconds c1 - civilToSeconds c0 : Int) : Rat) + η ∧
+      rn (toScenario (jdOf c1) (jdOf c0)) = toScenario (jdOf c1) (jdOf c0) := by
+  obtain ⟨ga, a0, a1, gga, ea, ja⟩ := jd_decomp_grid c0 h0
+  obtain ⟨gb, b0, b1, ggb, eb, jb⟩ := jd_decomp_grid c1 h1
+  have hc0 := civilToSeconds_eq c0 h0
+  have hc1 := civilToSeconds_eq c1 h1
+  rw [hc0, hc1] at hD0 hD1
+  obtain ⟨S00, S01⟩ := secOfDay_bounds c0 h0
+  obtain ⟨S10, S11⟩ := secOfDay_bounds c1 h1
+  have hNd0 : -1 ≤ dayCount c1 - dayCount c0 := by omega
+  have hNd1 : dayCount c1 - dayCount c0 ≤ 1158 := by omega
+  have hNr0 : (-1 : Rat) ≤ ((dayCount c1 - dayCount c0 : Int) : Rat) := by exact_mod_cast hNd0
+  have hNr1 : ((dayCount c1 - dayCount c0 : Int) : Rat) ≤ 1158 := by exact_mod_cast hNd1
+  -- the difference of the Julian dates, exact
+  have hdiff : fsub (jdOf c1) (jdOf c0) = ((dayCount c1 - dayCount c0 : Int) : Rat) + (gb - ga) := by
+    simp only [fsub]; rw [ja, jb]
+    have e : (dayCount c1 : Rat) + 17210135 / 10 + gb - ((dayCount c0 : Rat) + 17210135 / 10 + ga)
+        = ((dayCount c1 - dayCount c0 : Int) : Rat) + (gb - ga) := by push_cast; ring
+    rw [e]
+    apply rn_grid31
+    · exact onGrid_add (onGrid_intCast _ _ (by norm_num)) (onGrid_sub ggb gga)
+    · exact abs_lt_of_bounds (lo := -2) (hi := 1159) (by linarith) (by linarith) (by norm_num) (by norm_num)
+  set x := ((dayCount c1 - dayCount c0 : Int) : Rat) + (gb - ga) with hx
+  have gx : onGrid (-31) x := onGrid_add (onGrid_intCast _ _ (by norm_num)) (onGrid_sub ggb gga)
+  have xb0 : -2 ≤ x := by rw [hx]; linarith
+  have xb1 : x ≤ 1159 := by rw [hx]; linarith
+  have g24 : onGrid (-28) (x * 24) := by
+    have := onGrid_mul_int (onGrid_mul8 (-31) _ gx) 3
+    have e' : x * 24 = x * 8 * ((3 : Int) : Rat) := by push_cast; ring
+    rw [e']; simpa using this
+  have p25 : pow2 (-28 + 53) = 33554432 := by
+    have := pow2_nat 25; simp only [Nat.cast_ofNat] at this; norm_num; rw [this]; norm_num
+  have h24 : fmul x 24 = x * 24 := by
+    simp only [fmul]
+    apply rn_grid _ (-28) g24
+    rw [p25]
+    exact abs_lt_of_bounds (lo := -48) (hi := 27816) (by linarith) (by linarith) (by norm_num) (by norm_num)
+  have g3600 : onGrid (-24) (x * 24 * 3600) := by
+    have := onGrid_mul_int (onGrid_mul16 (-28) _ g24) 225
+    have e' : x * 24 * 3600 = x * 24 * 16 * ((225 : Int) : Rat) := by push_cast; ring
+    rw [e']; simpa using this
+  have p29 : pow2 (-24 + 53) = 536870912 := by
+    have := pow2_nat 29; simp only [Nat.cast_ofNat] at this; norm_num; rw [this]; norm_num
+  have hb3600 : |x * 24 * 3600| < pow2 (-24 + 53) := by
+    rw [p29]
+    exact abs_lt_of_bounds (lo := -172800) (hi := 100137600) (by linarith) (by linarith) (by norm_num) (by norm_num)
+  have h3600 : fmul (x * 24) 3600 = x * 24 * 3600 := by
+    simp only [fmul]; exact rn_grid _ (-24) g3600 hb3600
+  have hts : toScenario (jdOf c1) (jdOf c0) = x * 24 * 3600 := by
+    unfold toScenario; rw [hdiff, h24, h3600]
+  obtain ⟨q32, q54, _⟩ := pow2_small
+  rw [q32, q54] at ea eb
+  refine ⟨86400 * ((gb - (secOfDay c1 : Rat) / 86400) - (ga - (secOfDay c0 : Rat) / 86400)), ?_, ?_, ?_⟩
+  · have ha := abs_le.mp ea
+    have hb := abs_le.mp eb
+    rw [abs_lt]; constructor <;> linarith
+  · rw [hts, hx, hc0, hc1]; push_cast; ring
+  · rw [hts]; exact rn_grid _ (-24) g3600 hb3600
+
+/-- **a timed run takes exactly `D / dt` steps**: with the repaired second rule, for a whole-second start in 1901-2099, a
+requested duration `D` (a multiple of the step `dt`, at most 10⁸ s) whose end instant `target` is the civil instant
+`D` seconds after the start -/
+theorem timed_run_steps (start target : Civil) (D dt : Int) (hs : ValidCivil start) (ht : ValidCivil target)
+    (hsd : start.d ≤ monthLenT ((start.y - 1900) % 4 == 0) start.mo)
+    (hlabel : civilFromSeconds (civilToSeconds start + D) = target)
+    (htsec : civilToSeconds target = civilToSeconds start + D)
+    (hdt : 0 < dt) (hdt2 : dt ≤ 100000000) (hdiv : dt ∣ D) (hD : dt ≤ D) (hDmax : D ≤ 100000000) :
+    runSteps .nearest start D dt = some (D / dt) := by
+  unfold runSteps propagateSteps targetJD
+  simp only
+  rw [civil_roundtrip start hs hsd, hlabel]
+  obtain ⟨η, hη, hts, hrep⟩ := scenario_time_exact start target hs ht (by omega) (by omega)
+  have hDeq : civilToSeconds target - civilToSeconds start = D := by omega
+  rw [hDeq] at hts
+  have hsub0 : fsub (toScenario (jdOf target) (jdOf start)) 0 = (D : Rat) + η := by
+    simp only [fsub, sub_zero]; rw [hrep, hts]
+  rw [hsub0]
+  have hround : fround ((D : Rat) + η) = D := by unfold fround; exact rheQ_int_add D η hη
+  rw [hround]
+  have hge : ((D : Int) : Rat) ≥ (dt : Rat) := by exact_mod_cast hD
+  simp only [hge, if_true]
+  obtain ⟨q, rfl⟩ := hdiv
+  have hdt0 : (dt : Rat) ≠ 0 := by exact_mod_cast (ne_of_gt hdt)
+  have hq : ((dt * q : Int) : Rat) / (dt : Rat) = (q : Rat) := by push_cast; field_simp
+  have hqd : dt * q / dt = q := Int.mul_ediv_cancel_left q (ne_of_gt hdt)
+  have hq0 : 0 ≤ q := by
+    by_contra hn
+    have : q ≤ -1 := by omega
+    nlinarith
+  have hq1 : q ≤ 100000000 := by nlinarith
+  rw [hqd]
+  simp only [fdiv, hq]
+  rw [rn_intB q (by omega) (by omega)]
+  unfold ftrunc
+  have : (0 : Rat) ≤ (q : Rat) := by exact_mod_cast hq0
+  simp only [this, if_true, floor_intCast]
+
 end RV.Proofs.Time
